@@ -1,12 +1,16 @@
 (* C07 - executable property on the implementation's observations.
    Two kinds of case: CW = fschannel.OpenRotateFile + Write driven directly (with outside
    remove / rename / restart between writes), CC = the registered "file" channel end to end.
-   File contents travel run-length encoded (lossless; decoded here). *)
+   File contents travel run-length encoded (lossless; decoded here by [unrle]). *)
+From Coq Require Import Uint63.
 From HT Require Import Common.Bytes C07.Model.
 Open Scope Z_scope.
 
-Definition rle := list (N * N).
-Definition unrle (r : rle) : bytes := flat_map (fun e => repeat (fst e) (N.to_nat (snd e))) r.
+(* one run = byte + 256 * count, as a primitive integer (cheap to parse; no theorem depends on it) *)
+Definition rle := list int.
+Definition unrle (r : rle) : bytes :=
+  flat_map (fun x => repeat (Z.to_N (Uint63.to_Z (Uint63.land x 255)))
+                            (Z.to_nat (Uint63.to_Z (Uint63.lsr x 8)))) r.
 
 Inductive cop :=
 | CWrite (s : N) (p : rle)      (* s = wall-clock second (relative) observed around the call *)
